@@ -781,6 +781,11 @@ func runC14(p *Program, r *Report) {
 						return false, "verification uses another offer: " + argKey(vs, 1)
 					}
 				}
+				for _, nc := range pa.Calls("newConn") {
+					if cfg, ok := nc.Args[0].(*StructV); !ok || !keyIs(structField(cfg, "copts"), "call:verifyServerResponse@@#0") {
+						return false, "the Conn does not store the options agreed by verifyServerResponse: copts = " + keyOf(structField(nc.Args[0], "copts"))
+					}
+				}
 				return true, ""
 			})
 	}
